@@ -9,7 +9,7 @@ use mos_core::errors::Diagnostics;
 use mos_core::formatting::{format, FormattingOptions};
 use mos_core::io::{to_listing, BinaryWriter};
 use mos_core::parser::code_map::CodeMap;
-use mos_core::parser::source::{InMemoryParsingSource, ParsingSource};
+use mos_core::parser::source::{FileSystemParsingSource, InMemoryParsingSource, ParsingSource};
 use mos_core::parser::parse;
 use serde_json::{json, Map, Value};
 use std::cell::RefCell;
@@ -96,6 +96,13 @@ fn diag_json(d: &Diagnostics, cm: Option<&CodeMap>) -> Value {
 }
 
 fn source_from(req: &Value) -> (Arc<Mutex<dyn ParsingSource>>, String) {
+    // "dir": the files were written to that directory by the caller; they are read through the file system source that
+    // `mos build` uses (relative import paths with `./` and `../`, subdirectories)
+    if let Some(dir) = req.get("dir").and_then(|d| d.as_str()) {
+        let entry = req.get("entry").and_then(|e| e.as_str()).unwrap_or("main.asm");
+        let path = Path::new(dir).join(entry);
+        return (FileSystemParsingSource::new().into(), path.to_string_lossy().to_string());
+    }
     let mut src = InMemoryParsingSource::new();
     if let Some(files) = req.get("files").and_then(|f| f.as_object()) {
         for (k, v) in files {
